@@ -5,6 +5,28 @@ import json, os, subprocess, sys, shutil, tempfile
 V = '/verif'
 sys.path.insert(0, V)
 from engine import registry
+import re
+KANI_FILES = ('src/distance/', 'src/spaces/', 'src/unaligned_vector/', 'src/node.rs', 'src/node_id.rs', 'src/key.rs', 'src/version.rs', 'src/metadata.rs', 'src/roaring.rs')
+def unit_files(unit, seen=None):
+    """src files a unit template (and the libraries it includes) extracts from"""
+    seen = seen if seen is not None else set()
+    fs = set()
+    path = V + '/units/' + unit
+    if path in seen or not os.path.exists(path): return fs
+    seen.add(path)
+    for ln in open(path):
+        m = re.match(r'//@extract(?:-optional|-item)? (\S+) \|', ln)
+        if m: fs.add(m.group(1))
+        m = re.match(r'//@include (\S+)', ln)
+        if m: fs |= unit_files(m.group(1), seen)
+    return fs
+def relevant(p, files):
+    spec = registry.PROPS[p]
+    vf = set()
+    for u in spec.get('verus', {}): vf |= unit_files(u + '.rs')
+    if any(f in vf for f in files): return True
+    if spec.get('kani') and any(f.startswith(KANI_FILES) for f in files): return True
+    return False
 names = sys.argv[1:] or sorted(d for d in os.listdir(V + '/harmless') if os.path.isdir(V + '/harmless/' + d))
 assert subprocess.run('git -C /repo diff --quiet', shell=True).returncode == 0, '/repo is dirty'
 save = tempfile.mkdtemp(); shutil.copytree(V + '/evidence', save + '/evidence')
@@ -24,9 +46,11 @@ try:
                 c = subprocess.run([V + '/check', p], capture_output=True, text=True)
                 lines = [l for l in c.stdout.split('\n') if l.startswith('UNDECIDED') or l.startswith('VIOLATION') or 'failed obligation' in l]
                 return p, {'exit': c.returncode, 'lines': lines[:4]}
-            # the float-kernel checks (4 min of CBMC each) are skipped when the change cannot reach them
-            props = [p for p in sorted(registry.PROPS)
-                     if not (p in ('C11',) and not any(f.startswith(('src/spaces', 'src/distance', 'src/unaligned_vector')) for f in files))]
+            # a check is run only if the change touches a file it reads: the files its Verus units extract from, or -- when it has Kani
+            # harnesses -- the files those harnesses can reach (codecs, metrics, kernels). On other changes its input is byte-identical.
+            props = [p for p in sorted(registry.PROPS) if relevant(p, files)]
+            for p in sorted(registry.PROPS):
+                if p not in props: out[p] = {'exit': 0, 'lines': ['not run: the change touches no file this check reads']}
             from concurrent.futures import ThreadPoolExecutor
             with ThreadPoolExecutor(4) as ex:
                 for p, o in ex.map(one, props):
